@@ -15,6 +15,7 @@ type Plan struct {
 	Fine      []Scenario   `json:"fine,omitempty"`      // fine-grained counterexamples (deadlock) of such variants
 	Manager   *ManagerPlan `json:"manager,omitempty"`   // paths through the state graph of PeerManager
 	MWitness  []MScenario  `json:"mwitness,omitempty"`  // manager counterexamples of model variants without a fix
+	MTrace    *MTracePlan  `json:"mtrace,omitempty"`    // random walks on the real Manager recorded for trace validation
 	Stress    *StressPlan  `json:"stress,omitempty"`    // free-running concurrent runs recorded for trace validation
 	MaxReport int          `json:"max_report"`
 }
@@ -48,6 +49,9 @@ func TestDriver(t *testing.T) {
 	}
 	for _, sc := range plan.MWitness {
 		runManagerWitness(rep, sc)
+	}
+	if plan.MTrace != nil {
+		runManagerWalks(rep, plan.MTrace)
 	}
 	if plan.Stress != nil {
 		runStress(rep, plan.Stress)
